@@ -1029,6 +1029,10 @@ type c06Ctx struct {
 }
 
 func (c *c06Ctx) Fail(sig, clause string, detail interface{}) bool {
+	if c.pfx != "" && c.Ctx.IsKnown(sig) {
+		// the same listed defect reached through the command-line wrapper (same input, same library call site)
+		return c.Ctx.Fail(sig, clause, detail)
+	}
 	return c.Ctx.Fail(c.pfx+sig, clause, detail)
 }
 
